@@ -910,6 +910,10 @@ func (fc *FuncCtx) specBuiltin(st *State, name string, argEs []*SExpr, sc *specC
 			cur = Store(cur, IntLit(int64(i)), fc.coerceTerm(arg(i).T, es))
 		}
 		return Val{T: MkSlice(cur, IntLit(int64(len(argEs))))}, true
+	case "zerobytes":
+		// zerobytes(n): the value of make([]byte, n)
+		a := arg(0)
+		return Val{T: MkSlice(&Term{Op: "const-array", Args: []*Term{IntLit(0)}, Sort: ArrayOf(SInt, SInt)}, a.T), Typ: types.NewSlice(types.Typ[types.Uint8])}, true
 	case "strbytes":
 		a := arg(0)
 		return Val{T: App("str$bytes", SliceOf(SInt), a.T), Typ: types.NewSlice(types.Typ[types.Uint8])}, true
